@@ -431,7 +431,7 @@ SeqCall == /\ Quiet(w)
                 /\ CallOK(w, c)
                 /\ LET r == Big(w, T1, c) IN
                      /\ w' = r.w
-                     /\ op' = [c EXCEPT !.name = c.name] @@ [err |-> r.err]
+                     /\ op' = c @@ [err |-> r.err]
 GC == /\ "gc" \in Kinds
       /\ FaithfulGC \/ GCSafe(w)
       /\ w' = GCStep(w)
@@ -468,16 +468,17 @@ MemUnder(ww, x) ==
 Total(ww, o) ==
   LET ob == ww.obj[o] IN
   VAdd(MemV(MemUnder(ww, o)), IF o \in ConnIds THEN ConnV(ob.dir, ob.fd) ELSE StrV(ob.dir))
-RECURSIVE VSum(_, _, _)
-VSum(ww, S, f(_, _)) == IF S = {} THEN Z ELSE LET x == CHOOSE y \in S : TRUE IN VAdd(f(ww, x), VSum(ww, S \ {x}, f))
+RECURSIVE TotSum(_, _)
+TotSum(ww, S) == IF S = {} THEN Z ELSE LET x == CHOOSE y \in S : TRUE IN VAdd(Total(ww, x), TotSum(ww, S \ {x}))
+RECURSIVE DirSum(_, _)
+DirSum(ww, S) == IF S = {} THEN 0 ELSE LET x == CHOOSE y \in S : TRUE IN MemUnder(ww, x) + DirSum(ww, S \ {x})
 \* what scope x must report when no call is in flight: the sum of what its holders hold
 Exp(ww, x) ==
   IF x \in SpanIds THEN (IF ww.obj[x].st = "open" THEN MemV(MemUnder(ww, x)) ELSE Z)
   ELSE IF x \in ObjIds THEN (IF ww.obj[x].st = "open" THEN Total(ww, x) ELSE Z)
   ELSE LET holders == {o \in OpenObjs(ww, ConnIds \cup StreamIds) : x \in Range(ww.obj[o].edges)}
            below == {s \in Named : x \in Range(NamedEdges(s))}
-           DirectMem(v, s) == MemV(MemUnder(v, s))
-       IN VAdd(VAdd(MemV(MemUnder(ww, x)), VSum(ww, holders, Total)), VSum(ww, below, DirectMem))
+       IN VAdd(MemV(MemUnder(ww, x) + DirSum(ww, below)), TotSum(ww, holders))
 RECURSIVE PSum(_, _, _)
 PSum(ww, T, x) == IF T = {} THEN Z ELSE LET t == CHOOSE y \in T : TRUE IN VAdd(ww.pend[t][x], PSum(ww, T \ {t}, x))
 
